@@ -49,6 +49,9 @@ op("bool_lnot", "!m", "M", ALL_TYPES, "M")
 op("bool_eq", "m == m2", "MM", ALL_TYPES, "M")
 op("bool_neq", "m != m2", "MM", ALL_TYPES, "M")
 op("bool_andnot", "xsimd::bitwise_andnot(m, m2)", "MM", ALL_TYPES, "M")
+for _n in ("any", "all", "none", "count"):
+    op("bool_" + _n, "xsimd::%s(m)" % _n, "M", ALL_TYPES, "X")
+op("bool_mask", "m.mask()", "M", ALL_TYPES, "X")
 op("bool_land", "m && m2", "MM", ALL_TYPES, "M")
 op("bool_lor", "m || m2", "MM", ALL_TYPES, "M")
 
@@ -76,7 +79,7 @@ def entry_text(opn, tid, aid):
             params.append("int %s" % nm)
         elif k == "S":
             params.append("%s %s" % (T, nm))
-    R = {"B": B, "M": M}[ret]
+    R = {"B": B, "M": M, "X": "uint64_t"}[ret]
     return 'extern "C" void %s(%s* r%s) { %s *r = %s; }\n' % (entry_name(opn, tid, aid), R, "".join(", " + p for p in params),
                                                             " ".join(prologue), expr)
 
